@@ -182,6 +182,11 @@ func (e *Exec) libModel(st *State, callee *ssa.Function, cc *ssa.CallCommon, arg
 		k, srt := e.elemKey(tByte)
 		m := e.memGet(st, k, srt)
 		na := e.sc.fresh("rdarr", fmt.Sprintf("(Array %s %s)", e.sc.idx(), e.sc.byteSort()))
+		// only the bytes of the destination slice change
+		lo := e.sc.define("rdlo", e.sc.idx(), "(s-off "+b.S+")")
+		hi := e.sc.define("rdhi", e.sc.idx(), e.add("(s-off "+b.S+")", "(s-len "+b.S+")"))
+		e.assume(st, fmt.Sprintf("(forall ((k %s)) (! (=> (or %s %s) (= (select %s k) (select (select %s (s-base %s)) k))) :pattern ((select %s k))))",
+			e.sc.idx(), e.lt("k", lo), e.le(hi, "k"), na, m, b.S, na))
 		e.memSet(st, k, srt, fmt.Sprintf("(store %s (s-base %s) %s)", m, b.S, na))
 		n := e.sc.fresh("rdn", e.sc.idx())
 		errv := e.freshVal(st, "rderr", types.Universe.Lookup("error").Type())
